@@ -30,7 +30,16 @@ type Op struct {
 	Reuse    bool     `json:"reuse,omitempty"`   // regnode: register the SAME node object that is currently registered under the id
 	Shape    int      `json:"shape,omitempty"`   // regnode: 0 plain *N, 1 Unwrapper-only wrapper, 2 wrapper that is Closer and Unwrapper, 3 uncomparable value node, 4 twelve Unwrap-only decorators around the node
 	CtxDone  bool     `json:"ctxDone,omitempty"` // rpan / rmnode: call with an already cancelled context
-	Dress    int      `json:"dress,omitempty"`   // regnode / regpipe: how the option list is dressed up (the effective policy stays Pol): 1 a nil option first, 2 the opposite policy first (last one wins), 3 an option of the OTHER kind (node vs pipeline) with the opposite policy appended
+	Dress    int      `json:"dress,omitempty"`   // regnode / regpipe: how the option list is dressed up (the effective policy stays Pol): 1 a nil option first, 2 the opposite policy first (last one wins), 3 an option of the OTHER kind (node vs pipeline) with the opposite policy appended, 4 an INVALID policy value of the same kind first (the call must be rejected whatever follows)
+	CloseKind int     `json:"closeKind,omitempty"` // regnode with CloseErr: 0 plain error, 1 an error wrapping context.Canceled, 2 context.DeadlineExceeded itself
+}
+
+// EffPol is the policy the specification sees: an invalid value anywhere in the option list makes the call invalid.
+func (o Op) EffPol() int {
+	if o.Dress == 4 {
+		return 3
+	}
+	return o.Pol
 }
 
 func (o Op) String() string {
@@ -48,12 +57,12 @@ func (o Op) String() string {
 			x += ",sameObject"
 		}
 		if o.Shape != 0 {
-			x += [...]string{"", ",unwrapper", ",closer+unwrapper", ",uncomparable-value", ",12-decorators"}[o.Shape]
+			x += [...]string{"", ",unwrapper", ",closer+unwrapper", ",uncomparable-value", ",12-decorators", ",uncomparable-value-unwrapper"}[o.Shape]
 		}
-		x += [...]string{"", ",nil-option-first", ",opposite-policy-first", ",other-kind-option-last"}[o.Dress&3]
+		x += dressName(o.Dress)
 		return fmt.Sprintf("RegNode(%q,%s%s%s)", o.N, TypeName(o.NT), pol, x)
 	case "regpipe":
-		return fmt.Sprintf("RegPipe(%s/%q,[%s]%s%s)", o.ET, o.P, strings.Join(o.IDs, " "), pol, [...]string{"", ",nil-option-first", ",opposite-policy-first", ",other-kind-option-last"}[o.Dress&3])
+		return fmt.Sprintf("RegPipe(%s/%q,[%s]%s%s)", o.ET, o.P, strings.Join(o.IDs, " "), pol, dressName(o.Dress))
 	case "rmpipe":
 		return fmt.Sprintf("RemovePipeline(%s/%q)", o.ET, o.P)
 	case "rpan":
@@ -76,6 +85,10 @@ func (o Op) String() string {
 		return fmt.Sprintf("NewBroker(nodeDeny=%v,pipelineDeny=%v)", o.V&1 != 0, o.V&2 != 0)
 	}
 	return o.K
+}
+
+func dressName(d int) string {
+	return [...]string{"", ",nil-option-first", ",opposite-policy-first", ",other-kind-option-last", ",invalid-policy-first"}[d%5]
 }
 
 func TypeName(nt int) string {
@@ -181,6 +194,8 @@ func dressed(node bool, pol, dress int) []eventlogger.Option {
 		}
 	case 3:
 		opts = append(opts, other(opposite))
+	case 4:
+		opts = append([]eventlogger.Option{same("NoSuchPolicy")}, opts...)
 	}
 	return opts
 }
@@ -225,6 +240,12 @@ func (x *Exec) Apply(op Op) Result {
 		n := &nodes.N{W: x.W, Name: fmt.Sprintf("%s#%d", op.N, x.ninst), ID: op.N, T: eventlogger.NodeType(op.NT), SinkReturnsEvent: op.SinkRet}
 		if op.CloseErr {
 			n.CloseErr = fmt.Errorf("close of %s failed", n.Name)
+			switch op.CloseKind % 3 {
+			case 1:
+				n.CloseErr = fmt.Errorf("close of %s interrupted: %w", n.Name, context.Canceled)
+			case 2:
+				n.CloseErr = context.DeadlineExceeded
+			}
 		}
 		if x.NewNode != nil {
 			x.NewNode(op, n)
@@ -242,6 +263,8 @@ func (x *Exec) Apply(op Op) Result {
 			obj = nodes.Uncomparable{Inner: n, Pad: []int{1}}
 		case 4:
 			obj = nodes.WrapDeep(n, 12) // a dozen decorators around the closable node
+		case 5:
+			obj = nodes.UncomparableWrap{Inner: n, Pad: []int{1}} // held by value, not hashable, Unwrap only
 		}
 		r.Err = x.B.RegisterNode(eventlogger.NodeID(op.N), obj, dressed(true, op.Pol, op.Dress)...)
 		if r.Err == nil {
